@@ -24,15 +24,21 @@ from .common import call_args, effect_calls, is_call_of, node_iterator_domain, n
 
 
 def check(model: Model, rep: Report, tier: str):
-    u1(model, rep)
-    u2(model, rep)
-    share_rule(rep, model, r4, "C06.U3", "each copy starts when the latest-ending leaf of what precedes it has ended: MultiRelationLink picks the latest "
-               "member of the whole group (= C01.R4) and extend() chains every head of the appended copy to all current leaves (= C01.R7)")
-    share_rule(rep, model, r7, "C06.U3", "")
+    with rep.isolated():
+        u1(model, rep)
+    with rep.isolated():
+        u2(model, rep)
+    with rep.isolated():
+        share_rule(rep, model, r4, "C06.U3", "each copy starts when the latest-ending leaf of what precedes it has ended: MultiRelationLink picks the latest "
+                   "member of the whole group (= C01.R4) and extend() chains every head of the appended copy to all current leaves (= C01.R7)")
+    with rep.isolated():
+        share_rule(rep, model, r7, "C06.U3", "")
     rep.rules_text["C06.U3"] = ("each copy starts when the latest-ending leaf of what precedes it has ended: MultiRelationLink picks the latest member of "
                                 "the whole group (= C01.R4) and extend() chains every head of the appended copy to all current leaves (= C01.R7)")
-    u4(model, rep)
-    u5(model, rep)
+    with rep.isolated():
+        u4(model, rep)
+    with rep.isolated():
+        u5(model, rep)
 
 
 def u5(model: Model, rep: Report):
